@@ -39,6 +39,8 @@ type xl struct {
 	recPs                        []xlParam         // recursive callees of the current group (`rec_<fn>`)
 	dispatch                     map[string]string // interface method name -> dispatcher of the current group
 	flatKeys                     []string
+	recvAcc                      bool // whitelist Acc "$recv": the receiver is the threaded value and the only result
+	inStmtCall                   bool
 	goParamNames, leanParamNames []string // parameters by position (`$k` in fuel expressions)
 }
 
@@ -682,6 +684,8 @@ func (x *xl) sprintf(c *ast.CallExpr) ([]string, string, error) {
 				parts = append(parts, "Go.fmtS "+args[ai])
 			} else if rs[i] == 'd' && isInty(t) {
 				parts = append(parts, "Go.fmtD "+args[ai])
+			} else if bt, ok := t.Underlying().(*types.Basic); ok && rs[i] == 'd' && bt.Kind() == types.Uint && x.w.dom {
+				parts = append(parts, "Go.fmtD (Int.ofNat "+args[ai]+")")
 			} else {
 				return nil, "", x.errf(c, "format verb %%%c applied to %s", rs[i], t)
 			}
